@@ -386,7 +386,7 @@ def wrappers_and_format(chk, facts):
         ok = base in cs
         n += 1
         chk.ob(rule, short(nme).split("ffi::")[-1], ok, "%s answers by calling %s: %s" % (short(nme), short(base).split("::")[-1], ok), where=f.where(), fn=nme, key="%s:%s" % (rule, nme))
-    chk.floor(rule, "JSON wrappers", n, 17)
+    chk.floor(rule, "JSON wrappers", n, 16)
     f = facts.fn("cedar_policy::ffi::format::format")
     if f is None:
         chk.lost(rule, "ffi::format::format")
